@@ -5,6 +5,8 @@
 (* Unicode (BMP and beyond), PDF string delimiters, separators and padding.  Every state is printed  *)
 (* as a JSON behaviour whose last step carries the listing the document must return afterwards and,   *)
 (* for an extraction, exactly which attachment bytes must come out.                                   *)
+(* Non-ASCII characters are written <U+XXXX> in the strings below (TLC's disk state queue does not     *)
+(* preserve characters beyond 7 bits); the harness replaces them by the real characters.               *)
 (* Mode "bfs": all histories of <= MaxLen steps over the actions of the families in Fams;             *)
 (* mode "sim" (-simulate): random histories of 1..MaxLen steps over all families.                     *)
 EXTENDS Doc, Json, Randomization
@@ -24,12 +26,12 @@ vars == <<docvars, base, hist, len>>
 (* with "; " and split again at , ; CR on reading, pieces trimmed), and the key a removal request matches    *)
 Tok(text, parts, key) == [text |-> text, parts |-> parts, key |-> key]
 Plain(t) == Tok(t, {t}, t)
-KwToks == <<Plain("alpha"), Plain("Zoë ✓ 日本語"), Plain("two words"), Tok("a,b;c", {"a", "b", "c"}, "a,b;c"),
-            Tok(" pad ", {"pad"}, "pad"), Plain("(par\\en)"), Plain("b"), Plain("😀 emoji")>>
+KwToks == <<Plain("alpha"), Plain("Zo<U+00EB> <U+2713> <U+65E5><U+672C><U+8A9E>"), Plain("two words"), Tok("a,b;c", {"a", "b", "c"}, "a,b;c"),
+            Tok(" pad ", {"pad"}, "pad"), Plain("(par\\en)"), Plain("b"), Plain("<U+1F600> emoji")>>
 KwQuick == {1, 2, 4, 5, 6, 7}
 
-PropKeys == <<"Custom", "Ключ (1)/x", "a#1b", "My Key">>
-PropVals == <<"plain", "Zoë ✓ (x) \\ y", "v = 1; x, y", "😀 日本語">>
+PropKeys == <<"Custom", "<U+041A><U+043B><U+044E><U+0447> (1)/x", "a#1b", "My Key">>
+PropVals == <<"plain", "Zo<U+00EB> <U+2713> (x) \\ y", "v = 1; x, y", "<U+1F600> <U+65E5><U+672C><U+8A9E>">>
 PkQuick  == {1, 2, 3}
 PvQuick  == {1, 2, 3}
 
@@ -40,9 +42,9 @@ Fn2(k1, v1, k2, v2) == [x \in {k1, k2} |-> IF x = k1 THEN v1 ELSE v2]
 VPs == <<Fn1("HideToolbar", "true"), Fn2("HideToolbar", "false", "Direction", "R2L"), Fn2("NumCopies", "3", "Direction", "L2R"),
          Fn2("FitWindow", "true", "PrintScaling", "None")>>
 
-AttNames == <<"plain.txt", "Zoë ✓.bin", "sp ace (1).dat", "日本語 😀.txt">>
+AttNames == <<"plain.txt", "Zo<U+00EB> <U+2713>.bin", "sp ace (1).dat", "<U+65E5><U+672C><U+8A9E> <U+1F600>.txt">>
 AttData  == <<"bin", "big", "empty", "text">>        \* byte contents are defined by the harness per id
-AttDescs == <<"", "Beschreibung ü, (x)">>
+AttDescs == <<"", "Beschreibung <U+00FC>, (x)">>
 Att(d, desc) == [data |-> d, desc |-> desc]
 AnQuick == {1, 2, 3}
 
